@@ -293,6 +293,7 @@ type modEntry struct {
 	cell   *Cell // copy-in cell or local
 	ptr    *PtrVal
 	all    bool
+	whole  bool // prefix entry covering every object of the type
 	typ    types.Type
 }
 
@@ -330,6 +331,62 @@ func (x *Exec) evalModifies(ce *cenv, ms []*CExpr) []modEntry {
 				heapNames = append(heapNames, hn)
 			}
 			out = append(out, modEntry{heap: hn, ref: sliceRef(s), typ: st.Elem()})
+			continue
+		}
+		if m.Kind == "call" && (m.Name == "allof" || m.Name == "allelems" || m.Name == "allmaps") {
+			// coarse frames: every object of a struct type / every array of an element type /
+			// every map owned by a field
+			arg := m.Args[0].String()
+			switch m.Name {
+			case "allof":
+				obj := x.env.pkg.Types.Scope().Lookup(arg)
+				if obj == nil || structOf(obj.Type()) == nil {
+					x.unsup("modifies allof(%s): unknown struct type", arg)
+				}
+				out = append(out, modEntry{heap: "F:" + te.typeStr(obj.Type()) + ".", prefix: true, typ: obj.Type(), whole: true})
+			case "allelems":
+				var et types.Type
+				if arg == "bytes" {
+					et = types.NewSlice(types.Universe.Lookup("byte").Type())
+				} else if arg == "bool" {
+					et = types.Typ[types.Bool]
+				} else {
+					obj := x.env.pkg.Types.Scope().Lookup(arg)
+					if obj == nil {
+						x.unsup("modifies allelems(%s): unknown type", arg)
+					}
+					et = obj.Type()
+				}
+				hn, so := te.elemHeap(et)
+				if _, ok := heapSorts[hn]; !ok {
+					heapSorts[hn] = so
+					heapNames = append(heapNames, hn)
+				}
+				out = append(out, modEntry{heap: hn, typ: et})
+			case "allmaps":
+				// arg is Struct.field
+				k := strings.Index(arg, ".")
+				obj := x.env.pkg.Types.Scope().Lookup(arg[:k])
+				if k < 0 || obj == nil || structOf(obj.Type()) == nil {
+					x.unsup("modifies allmaps(%s)", arg)
+				}
+				sty := structOf(obj.Type())
+				for i := 0; i < sty.NumFields(); i++ {
+					if sty.Field(i).Name() == arg[k+1:] {
+						mt := sty.Field(i).Type().Underlying().(*types.Map)
+						dn, ds, vn, vs := te.mapHeaps(mt, arg)
+						ln, ls := te.mapLenHeap(mt, arg)
+						for _, p := range [][2]any{{dn, ds}, {vn, vs}, {ln, ls}} {
+							n := p[0].(string)
+							if _, ok := heapSorts[n]; !ok {
+								heapSorts[n] = p[1].(*Sort)
+								heapNames = append(heapNames, n)
+							}
+							out = append(out, modEntry{heap: n})
+						}
+					}
+				}
+			}
 			continue
 		}
 		if m.Kind == "call" && m.Name == "all" {
@@ -423,6 +480,11 @@ func (x *Exec) havocEntry(st *State, m modEntry, pos token.Pos) {
 		sty := structOf(m.typ)
 		for i := 0; i < sty.NumFields(); i++ {
 			hn, so := te.fieldHeap(m.typ, i)
+			if m.whole {
+				x.checkWrite(st, hn, nil, pos)
+				st.setH(hn, fresh("havoc."+sty.Field(i).Name(), so))
+				continue
+			}
 			x.checkWrite(st, hn, m.ref, pos)
 			st.setH(hn, mkStore(st.H(hn, so), m.ref, fresh("havoc."+sty.Field(i).Name(), so.Elem)))
 		}
@@ -454,6 +516,9 @@ func (x *Exec) writeAllowed(st *State, heap string, ref *Term) *Term {
 		case m.ptr != nil:
 			continue
 		case m.prefix:
+			if strings.HasPrefix(heap, m.heap) && m.whole {
+				return tTrue
+			}
 			if strings.HasPrefix(heap, m.heap) && ref != nil {
 				alts = append(alts, mkEq(ref, m.ref))
 			}
